@@ -51,7 +51,11 @@ let run_fmt f fn t =
   | "signbit" -> u1 (fun x -> okb (spec_signbit p e x)) (fun x -> okb (spec_signbit p e x))
   | "copysign" -> b2 (fun x y -> okf f (spec_copysign p e x y)) (fun x y -> okf f (spec_copysign p e x y))
   | "fmod" -> b2 (fun x y -> okf f (spec_fmod p e x y)) (fun x y -> okf f (spec_fmod p e x y))
-  | "remainder" -> b2 (fun x y -> okf f (spec_remainder p e x y)) (fun x y -> okf f (spec_remainder p e x y))
+  | "remainder" ->
+      (* the sign of a zero result of the run-time (builtin = libm) remainder is not compared, see harness.cpp *)
+      let poszero v = match v with B754_zero _ -> B754_zero false | _ -> v in
+      b2 (fun x y -> okf f (poszero (spec_remainder p e x y))) (fun x y -> okf f (poszero (spec_remainder p e x y)))
+  | "remainder_raw" -> b2 (fun x y -> okf f (spec_remainder p e x y)) (fun x y -> okf f (spec_remainder p e x y))
   | "lrint" | "llrint" ->
       (* outside the representable range the builtin returns the x86-64 "integer indefinite" *)
       u1 (fun x -> match spec_lrint p e w64 x with Some z -> okz z | None -> okz int_min64)
@@ -83,7 +87,7 @@ let run_fmt f fn t =
   | "nextafter" -> b2 (fun x y -> okf f (f.na x y)) (fun x y -> okf f (spec_nextafter p e x y))
   | "midpoint" -> b2 (fun x y -> okf f (e_midpoint p e x y)) (fun x y -> optf f (spec_midpoint p e x y))
   | "g_fmod" -> b2 (fun x y -> resf f (g_fmod p e x y)) (fun x y -> okf f (spec_fmod p e x y))
-  | "g_remainder" -> b2 (fun x y -> resf f (g_fmod p e x y)) (fun x y -> okf f (spec_remainder p e x y))
+  | "g_remainder" -> b2 (fun x y -> resf f (g_remainder p e x y)) (fun x y -> okf f (spec_remainder p e x y))
   | "copysign_fb" -> b2 (fun x y -> okf f (e_copysign_fb p e x y)) (fun x y -> okf f (spec_copysign p e x y))
   | "lerp" ->
       let a = f.rd t in let b = f.rd t in let tt = f.rd t in
